@@ -378,6 +378,12 @@ def r5_errors_propagate(ctx):
 
 
 def run(ctx):
+    from ..report import Relabel
+    from .c13 import r3_prefix
+    from .c14 import r5_no_stale_key_state
+
+    r5_no_stale_key_state(Relabel(ctx, 'C08.R6'))
+    r3_prefix(Relabel(ctx, 'C08.R1'))
     r1_confinement(ctx)
     r2_referenced_guard(ctx)
     r3_tag_relation(ctx)
